@@ -325,7 +325,7 @@ func c19model(c *Ctx) {
 	m.val = map[string]float64{"__ranks": 1}
 	m.it.symbolic = true
 	m.it.valuation = m.val
-	m.it.maxDepth = 30
+	m.it.maxDepth = 48
 	m.it.maxLoop = 256
 	errV := oIface{opaque: &oOpaque{name: "error", isError: true}}
 	var lastShortest *c19shortest
